@@ -1067,6 +1067,7 @@ impl<'source, 'trivia> GroupBuilder<'source, 'trivia> {
                 items: sub_group_items,
                 line_length: OnceCell::new(),
             });
+            self.break_after_line_comment();
         }
 
         self
@@ -1098,7 +1099,36 @@ impl<'source, 'trivia> GroupBuilder<'source, 'trivia> {
     }
 
     fn group_break(&mut self, group_break: GroupBreak) {
+        // A forced break that follows a nested item ending in a line comment must not be weakened,
+        // otherwise the following item would end up in the comment.
+        if !group_break.needs_linebreak(false, false, false) && self.ends_with_line_comment_break() {
+            return;
+        }
         self.items.push(FormatItem::GroupBreak(group_break));
+    }
+
+    // True if the group's items end with a nested item that ends in a line comment,
+    // followed by the forced break added by `break_after_line_comment`.
+    fn ends_with_line_comment_break(&self) -> bool {
+        match self.items.as_slice() {
+            [.., item, FormatItem::GroupBreak(GroupBreak::IndentedBreak)] => {
+                matches!(item, FormatItem::Group { .. }) && item.ends_with_line_comment()
+            }
+            _ => false,
+        }
+    }
+
+    // A nested item that ends in a line comment is followed by a forced break, so that whatever
+    // comes next in this group starts on a new line instead of being swallowed by the comment.
+    fn break_after_line_comment(&mut self) {
+        if self
+            .items
+            .last()
+            .is_some_and(|item| matches!(item, FormatItem::Group { .. }) && item.ends_with_line_comment())
+        {
+            self.items
+                .push(FormatItem::GroupBreak(GroupBreak::IndentedBreak));
+        }
     }
 
     fn space_or_indent(mut self) -> Self {
@@ -1237,6 +1267,7 @@ impl<'source, 'trivia> GroupBuilder<'source, 'trivia> {
         } else {
             self.items
                 .push(format_node(node_index, self.ctx, self.trivia));
+            self.break_after_line_comment();
         }
 
         self.current_line = node_end_line;
@@ -1275,6 +1306,7 @@ impl<'source, 'trivia> GroupBuilder<'source, 'trivia> {
             self.ctx,
             self.trivia,
         )));
+        self.break_after_line_comment();
         self.current_line = self.ctx.span(nested_node).end.line;
         self
     }
@@ -1736,6 +1768,20 @@ impl<'source> FormatItem<'source> {
 
     fn is_break(&self) -> bool {
         matches!(self, Self::LineBreak | Self::GroupBreak(_))
+    }
+
+    // True if the last thing that the item renders is a line comment
+    fn ends_with_line_comment(&self) -> bool {
+        match self {
+            // Comments are copied from the source, `#-` starts a multi-line comment
+            Self::Str(s) => s.starts_with('#') && !s.starts_with("#-"),
+            Self::Group { items, .. } => items
+                .iter()
+                .rev()
+                .find(|item| !item.is_break())
+                .is_some_and(Self::ends_with_line_comment),
+            _ => false,
+        }
     }
 }
 
